@@ -12,6 +12,7 @@ import SamVerif.Spec.Resp
 import SamVerif.Proofs.Resp
 import SamVerif.Proofs.RespRefine
 import SamVerif.Gen.Codec
+import SamVerif.Gen.Bufio
 namespace SamVerif.Props.C10
 open SamVerif.Resp SamVerif.Proofs.Resp
 
@@ -287,6 +288,55 @@ example : wf sample = true := by decide
 example : depth sample = 3 := by decide
 example : depth sample ≤ maxArrayDepth := by decide
 
+/-- **The code the model was written against.** The statements of the modelled functions,
+regenerated from the current source on every run, are the ones the model was written against;
+any edit to one of them makes this obligation fail and starts a search for a failing input. -/
+theorem reader_matches_model :
+    Gen.Bufio.fill =
+      ["if b.err != nil { return b.err }",
+      "if b.rderr != nil { b.err = b.rderr return b.err }",
+      "if b.r > 0 { n := copy(b.buf, b.buf[b.r:b.w]) b.r = 0 b.w = n }",
+      "n, err := b.rd.Read(b.buf[b.w:])",
+      "if n > 0 { b.w += n b.rderr = err return nil }",
+      "if err != nil { b.err = err } else { b.err = io.ErrNoProgress }",
+      "return b.err"] ∧
+    Gen.Bufio.read =
+      ["if b.err != nil || len(p) == 0 { return 0, b.err }",
+      "if b.buffered() == 0 { if b.rderr != nil { b.err = b.rderr return 0, b.err } if len(p) >= len(b.buf) { n, err := b.rd.Read(p) if err != nil { b.err = err } return n, b.err } if b.fill() != nil { return 0, b.err } }",
+      "n := copy(p, b.buf[b.r:b.w])",
+      "b.r += n",
+      "return n, nil"] ∧
+    Gen.Bufio.readByte =
+      ["if b.err != nil { return 0, b.err }",
+      "if b.buffered() == 0 { if b.fill() != nil { return 0, b.err } }",
+      "c := b.buf[b.r]",
+      "b.r++",
+      "return c, nil"] ∧
+    Gen.Bufio.peekByte =
+      ["if b.err != nil { return 0, b.err }",
+      "if b.buffered() == 0 { if b.fill() != nil { return 0, b.err } }",
+      "c := b.buf[b.r]",
+      "return c, nil"] ∧
+    Gen.Bufio.readSlice =
+      ["if b.err != nil { return nil, b.err }",
+      "for { var index = bytes.IndexByte(b.buf[b.r:b.w], delim) if index >= 0 { limit := b.r + index + 1 slice := b.buf[b.r:limit] b.r = limit return slice, nil } if b.buffered() == len(b.buf) { b.r = b.w return b.buf, bufio.ErrBufferFull } if b.fill() != nil { return nil, b.err } }"] ∧
+    Gen.Bufio.readBytes =
+      ["var full [][]byte",
+      "var last []byte",
+      "var size int",
+      "for last == nil { f, err := b.ReadSlice(delim) if err != nil { if err != bufio.ErrBufferFull { return nil, b.err } dup := b.slice.Make(len(f)) copy(dup, f) full = append(full, dup) } else { last = f } size += len(f) if size > maxLineLen { return nil, ErrLineTooLong } }",
+      "var n int",
+      "var buf = b.slice.Make(size)",
+      "for _, frag := range full { n += copy(buf[n:], frag) }",
+      "copy(buf[n:], last)",
+      "return buf, nil"] ∧
+    Gen.Bufio.readFull =
+      ["if b.err != nil || n == 0 { return nil, b.err }",
+      "// NOTE: use customize slice allocator to reduce allocs. var buf = b.slice.Make(n)",
+      "if _, err := io.ReadFull(b, buf); err != nil { return nil, err }",
+      "return buf, nil"] := by
+  refine ⟨rfl, rfl, rfl, rfl, rfl, rfl, rfl⟩
+
 end SamVerif.Props.C10
 
 #print axioms SamVerif.Props.C10.decode_encode
@@ -296,3 +346,4 @@ end SamVerif.Props.C10
 #print axioms SamVerif.Props.C10.decode_encode_chunked
 #print axioms SamVerif.Props.C10.inline_eq_array
 #print axioms SamVerif.Props.C10.constants_match_source
+#print axioms SamVerif.Props.C10.reader_matches_model
